@@ -181,6 +181,9 @@ def m_np_squeeze(eng, st, args, kwargs, node):
     o = seq_of(eng, st, v, node)
     e0 = o.get(z3.Int("k!probe"))
     if not isinstance(e0, VRef):
+        if getattr(eng, "strict_squeeze", False):
+            # a one-element 1-D array becomes 0-d (indexing it raises): the caller of this model wants that case excluded
+            eng.oblige(st, "np.squeeze of a 1-D array: it has more than one entry (a single entry would give a 0-d array)", o.len != 1, "safety", node)
         return v
     k = z3.Int(fresh_name("k!sq"))
     s2 = st.fork()
